@@ -1,80 +1,126 @@
-(* Parser/Depth.v — MODEL of the recursion structure of the expression parser
-   (nervusdb-query/src/parser.rs parse_expression_bp -> parse_prefix_expression ->
-   parse_primary_expression -> parse_expression_bp ...) over an abstract token stream, with the
-   recursion depth made explicit (the quantity the hook parser::verif_depth reports).
+(* Parser/Depth.v — MODEL of the recursion structure and of the depth budget of the expression
+   parser (nervusdb-query/src/parser.rs: parse_expression_bp -> parse_prefix_expression ->
+   parse_primary_expression -> parse_expression_bp ..., TokenParser::{nested, push_down}) over an
+   abstract token stream.  The parser is modelled together with the AST it builds, so that the
+   budget can be related to the depth of the AST (what planner, evaluator and Drop recurse over).
 
    tokens: TAtom  literal / variable / parameter
-           TOpen  any production that parses a sub-expression one level down and then expects a
-                  closing token: ( [ {k: f( CASE..THEN x[ [v IN
+           TOpen  a production that parses a sub-expression one level down and then expects a
+                  closing token: ( [ {k: f( CASE..THEN  (modelled as building one AST node)
            TClose the matching closer
-           TPre   prefix operator (-, +, NOT): operand parsed one level down
+           TPre   prefix operator (-, NOT): operand parsed one level down
            TBin   infix operator (one precedence class, left associative): right operand parsed
                   one level down with a higher minimum binding power, then the loop continues
-   `limit`: a nesting-depth guard (reject when the depth exceeds it).  The pinned parser has none
-   (limit = None): its only guard, the "parser complexity guard", bounds the number of token
-   advances (max(50000, 2048 * tokens)), not the depth. *)
+           TPost  postfix step (.key, [index], :Label): wraps the expression parsed so far
+
+   budget (fix 'limit the nesting depth ...'): `dp` = cost of the path from the root to the
+   production being parsed, `deep` = deepest node below the innermost nested production.
+     nested cost:   reject if dp + cost > b; else dp += cost, deep := dp, run, dp -= cost,
+                    deep := max deep (outer deep)
+     push_down n:   reject if deep + n > b; else deep += n
+   b = None models the parser before the fix (no accounting at all). *)
 From Coq Require Import List NArith Bool.
 Import ListNotations.
 Open Scope N_scope.
 
-Inductive tok := TAtom | TOpen | TClose | TPre | TBin.
-Inductive res := Ok (rest : list tok) (hw : N) | Reject (hw : N) | OutOfFuel.
+Inductive tok := TAtom | TOpen | TClose | TPre | TBin | TPost.
+Inductive ast := ALeaf | AUn (a : ast) | ABin (l r : ast).
+Fixpoint adepth (a : ast) : N :=
+  match a with ALeaf => 1 | AUn a => 1 + adepth a | ABin l r => 1 + N.max (adepth l) (adepth r) end.
 
-Definition over (limit : option N) (d : N) : bool :=
-  match limit with Some l => N.ltb l d | None => false end.
+Record pst := mkSt { dp : N; deep : N }.
+(* hw: high-water mark of the number of simultaneously active activations of parse_expression_bp *)
+Inductive res := Ok (rest : list tok) (s : pst) (e : ast) (hw : N) | Reject (hw : N) | OutOfFuel.
 
-(* go: one activation of parse_expression_bp at depth d (tight: minimum binding power above the
-   infix class: the activation does not consume infix operators) *)
-Fixpoint go (fuel : nat) (limit : option N) (tight : bool) (d : N) (ts : list tok) {struct fuel} : res :=
+Definition over (b : option N) (x : N) : bool := match b with Some l => N.ltb l x | None => false end.
+Definition push_down (b : option N) (s : pst) (n : N) : option pst :=
+  if over b (deep s + n) then None else Some (mkSt (dp s) (deep s + n)).
+
+(* postfix chain after a primary expression (structural on the tokens) *)
+Fixpoint postfix (b : option N) (s : pst) (ts : list tok) (e : ast) (hw : N) : res :=
+  match ts with
+  | TPost :: t => match push_down b s 1 with
+                  | Some s' => postfix b s' t (AUn e) hw
+                  | None => Reject hw
+                  end
+  | _ => Ok ts s e hw
+  end.
+
+Section Go.
+Variable ce : N.    (* EXPRESSION_NESTING_COST *)
+
+(* go: one activation of parse_expression_bp entered from state s, with `rec` activations already
+   active (tight: minimum binding power above the infix class) *)
+Fixpoint go (fuel : nat) (b : option N) (tight : bool) (s : pst) (ts : list tok) (rec : N) {struct fuel} : res :=
   match fuel with
   | O => OutOfFuel
   | S f =>
-      if over limit d then Reject d else
+      if over b (dp s + ce) then Reject rec else
+      let s1 := mkSt (dp s + ce) (dp s + ce) in
+      let rec1 := N.succ rec in
       let head :=
         match ts with
-        | TAtom :: t => Ok t d
-        | TPre :: t => go f limit true (N.succ d) t
-        | TOpen :: t =>
-            match go f limit false (N.succ d) t with
-            | Ok (TClose :: t') hw => Ok t' hw
-            | Ok _ hw => Reject hw
+        | TAtom :: t => postfix b s1 t ALeaf rec1
+        | TPre :: t =>
+            match go f b true s1 t rec1 with
+            | Ok rest s2 e hw => Ok rest s2 (AUn e) hw
             | r => r
             end
-        | _ => Reject d
+        | TOpen :: t =>
+            match go f b false s1 t rec1 with
+            | Ok (TClose :: t') s2 e hw => postfix b s2 t' (AUn e) hw
+            | Ok _ _ _ hw => Reject hw
+            | r => r
+            end
+        | _ => Reject rec1
         end in
-      match head with
-      | Ok rest hw => if tight then Ok rest hw else loop f limit d rest hw
+      let body :=
+        match head with
+        | Ok rest s2 e hw => if tight then head else loop f b s2 rest e hw rec1
+        | r => r
+        end in
+      match body with
+      | Ok rest s2 e hw => Ok rest (mkSt (dp s) (N.max (deep s2) (deep s))) e hw
       | r => r
       end
   end
-with loop (fuel : nat) (limit : option N) (d : N) (ts : list tok) (hw : N) {struct fuel} : res :=
+with loop (fuel : nat) (b : option N) (s : pst) (ts : list tok) (lhs : ast) (hw : N) (rec : N) {struct fuel} : res :=
   match fuel with
   | O => OutOfFuel
   | S f =>
       match ts with
       | TBin :: t =>
-          match go f limit true (N.succ d) t with
-          | Ok rest hw' => loop f limit d rest (N.max hw hw')
+          match go f b true s t rec with
+          | Ok rest s2 rhs hw' =>
+              match push_down b s2 1 with
+              | Some s3 => loop f b s3 rest (ABin lhs rhs) (N.max hw hw') rec
+              | None => Reject (N.max hw hw')
+              end
           | Reject hw' => Reject (N.max hw hw')
           | OutOfFuel => OutOfFuel
           end
-      | _ => Ok ts hw
+      | _ => Ok ts s lhs hw
       end
   end.
+End Go.
 
-Definition hw_of (r : res) : N := match r with Ok _ hw => hw | Reject hw => hw | OutOfFuel => 0 end.
+Definition hw_of (r : res) : N := match r with Ok _ _ _ hw => hw | Reject hw => hw | OutOfFuel => 0 end.
+Definition rejected (r : res) : bool := match r with Reject _ => true | _ => false end.
 
-(* RETURN <expr>: parse_query is depth 1, the expression starts at depth 2 *)
-Definition start_depth : N := 2.
-Definition depth_reached (limit : option N) (ts : list tok) : res :=
-  go (3 * length ts + 3) limit false start_depth ts.
+(* RETURN <expr> AS x: parse_query is one nested production (cost cq, one activation for the hook),
+   then the expression; afterwards the clause is pushed down by one *)
+Definition parse_return (ce cq : N) (b : option N) (ts : list tok) : res :=
+  if over b cq then Reject 0 else
+  match go ce (3 * length ts + 3) b false (mkSt cq cq) ts 1 with
+  | Ok rest s e hw => match push_down b s 1 with Some s' => Ok rest s' e hw | None => Reject hw end
+  | r => r
+  end.
 
 (* the nesting families of the harness (c16.rs NEST_KINDS), d levels *)
 Definition family (kind : N) (d : nat) : list tok :=
   match kind with
   | 3 | 4 => repeat TPre d ++ [TAtom]                                  (* neg, not *)
+  | 7 => repeat TOpen d ++ [TOpen; TAtom; TClose] ++ repeat TClose d   (* x[ x[ ... ] ]: the indexed list literal adds a level *)
   | 8 => repeat TOpen d ++ [TOpen; TAtom; TClose] ++ repeat TClose d   (* list comprehension over a list literal *)
-  | _ => repeat TOpen d ++ [TAtom] ++ repeat TClose d                  (* paren list map func case index *)
+  | _ => repeat TOpen d ++ [TAtom] ++ repeat TClose d                  (* paren list map func case *)
   end.
-
-Definition rejected (r : res) : bool := match r with Reject _ => true | _ => false end.
